@@ -1,0 +1,26 @@
+//go:build verif
+
+package appdb
+
+import (
+	db "github.com/tendermint/tm-db"
+)
+
+// VerifWrapDB, when set, receives the freshly opened application database and returns the
+// handle the AppDB will use (write interception / persistent in-memory "disk").
+var VerifWrapDB func(d db.DB) db.DB
+
+func verifWrapDB(d db.DB) db.DB {
+	if VerifWrapDB != nil {
+		return VerifWrapDB(d)
+	}
+	return d
+}
+
+// VerifDB returns the raw database handle.
+func (appDB *AppDB) VerifDB() db.DB { return appDB.db }
+
+// VerifFlags returns the dirty flags (diagnostics only).
+func (appDB *AppDB) VerifFlags() (versions, emission, price bool) {
+	return appDB.isDirtyVersions, appDB.isDirtyEmission, appDB.isDirtyPrice
+}
